@@ -310,8 +310,61 @@ RESOLVER_SEQS = [
 PLAIN_SEQS = [[op_single()], [op_multi(4)], [op_multi(0)], [op_multi(8)]]
 
 
+VIA_DONORS = [[], [op_single()], [op_multi(4)], [op_pflood(), op_single()],
+              [op_single(), op_snap("zz", 1, 1), op_mst("kruskal", "carve"), op_multi(0)]]
+
+
 def flow_case(cid, grid, steps, timeout_ms=None):
+    # about one graph in four receives its operator sequence through the public move assignment of
+    # flow_operator_sequence (onto an empty sequence or onto one holding other operators): the
+    # specification knows no such distinction, every observation must be the same
+    import random as _random
+    vr = _random.Random("via:" + str(cid))
+    for st in steps:
+        if st.get("op") == "new" and "via" not in st and vr.random() < 0.25:
+            st["via"] = "assign"
+            st["via_ops"] = vr.choice(VIA_DONORS)
     c = dict(kind="flow", id=cid, grid=grid, steps=steps)
     if timeout_ms:
         c["timeout_ms"] = timeout_ms
     return c
+
+
+def hub_world(rng, min_sectors=17, max_sectors=20, low_degree=16, conn=None):
+    """A terrain whose basin graph keeps SEVERAL basins of degree > 16 (Boruvka's large-degree work list)
+    through the first contraction round: a row of base levels (one outer basin per node), a ridge, a row
+    of K >= 17 closed 'sector' basins each touching > 16 outer basins, a second ridge and one long
+    'lake' basin touching every sector.  After the outer basins have collapsed into the root, the
+    root and the lake both still have K > 16 distinct neighbours.  Returns (grid, field)."""
+    conn = rng.choice(["queen", "rook"]) if conn is None else conn
+    if low_degree < 16:
+        # the harness lowers the degree bound (guarded knob): 6 is enough on rook rasters (the basin
+        # graph plus the root is an apex graph: some node has degree <= 6), 8 on queen rasters
+        low_degree = 6 if conn == "rook" else 8
+        min_sectors, max_sectors = low_degree + 1, low_degree + 3
+    K = rng.randint(min_sectors, max_sectors)
+    wmin = max(2, low_degree - (2 if conn == "rook" else 4))   # sector degree = w + 3 (rook) / w + 5 (queen) > bound
+    w = rng.randint(wmin, wmin + 2)
+    nc = K * w
+    extra_lake = rng.random() < 0.3          # a second lake below the first one: three hubs
+    nr = 7 if extra_lake else 5
+    tied = rng.random() < 0.4
+    flip = rng.random() < 0.5                # base levels on the bottom row instead of the top row
+    m = [0] * (nr * nc)
+    mid = nc // 2
+    jit = (lambda: 0) if tied else (lambda: rng.randint(0, 3))
+    for c in range(nc):
+        k, off = divmod(c, w)
+        rows = [0,
+                10000 + (0 if tied else c) + jit(),
+                5000 + 100 * abs(off - w // 2) + (0 if tied else k) + jit(),
+                8000 + (0 if tied else c) + jit(),
+                2000 + abs(c - mid)]
+        if extra_lake:
+            rows += [7000 + (0 if tied else c) + jit(), 1000 + abs(c - mid)]
+        for r, v in enumerate(rows):
+            rr = nr - 1 - r if flip else r
+            m[rr * nc + c] = v
+    bs = [CORE, CORE, CORE, FV] if flip else [CORE, CORE, FV, CORE]
+    g = raster(nr, nc, conn, bs)
+    return g, dict(k="int", m=m, e=0), low_degree
